@@ -15,7 +15,9 @@ XML well-formedness is judged by expat.
 from __future__ import annotations
 
 import io
+import os
 import re
+import tempfile
 import traceback
 import xml.etree.ElementTree as ET
 from xml.parsers import expat
@@ -55,7 +57,8 @@ BOUNDS = {
              "slot pairs over the 6-element core alphabets; all ordered pairs of 9 documents with equal object numbers but different fonts converted one after the other in one process (4 entry points); option grid: 5 LAParams x {extract_text(), text, xml x strip_control} x {StringIO, BytesIO x 4 codecs} "
              "for documents with <= 1 special slot; for two-slot documents the BytesIO x codec part only under the default LAParams",
     "thorough": "all choice vectors with <= 2 non-default slots over the full alphabets; same option grids and document pairs; "
-                "text sinks (StringIO, extract_text) additionally with codec in {utf-8, latin-1, ascii} under the default LAParams (both tiers)",
+                "text sinks (StringIO, extract_text) additionally with codec in {utf-8, latin-1, ascii} under the default LAParams (both tiers); "
+                "for documents with <= 1 special slot also real files (wb, w+b, r+b, ab, TemporaryFile, w, w+) compared with BytesIO/StringIO (both tiers)",
 }
 
 META = {
@@ -444,6 +447,10 @@ def compare_xml(root, pages, strip: bool):
 
 
 # --------------------------------------------------------------------- judge
+FILE_SINKS_BINARY = ["file:wb", "file:w+b", "file:r+b", "file:ab", "file:tmp"]  # tmp = tempfile.TemporaryFile() (mode 'rb+')
+FILE_SINKS_TEXT = ["file:w", "file:w+"]
+
+
 def convert(pdf: bytes, la, output: str, sink: str, codec: str, strip: bool):
     """Return ('ok', value) | ('unrepresentable', msg) | ('exc', signature-part, msg)."""
     hl, lt, *_ = _pdfminer()
@@ -453,21 +460,55 @@ def convert(pdf: bytes, la, output: str, sink: str, codec: str, strip: bool):
         except Exception as e:  # noqa
             tb = traceback.extract_tb(e.__traceback__)
             return ("exc", f"{type(e).__name__}@{tb[-1].name}", f"{type(e).__name__}: {e}"[:200])
-    out = io.StringIO() if sink == "str" else io.BytesIO()
-    c = codec
-    if sink == "str" and output == "xml":
-        c = ""  # XMLConverter requires "no codec" for a text sink
+    tmpdir = None
+    textual = sink == "str" or sink in FILE_SINKS_TEXT
     try:
-        hl.extract_text_to_fp(
-            io.BytesIO(pdf), out, output_type=output, codec=c,
-            laparams=None if la is None else lt.LAParams(**la), strip_control=strip,
-        )
-    except UnicodeEncodeError as e:
-        return ("unrepresentable", str(e)[:80])
-    except Exception as e:  # noqa
-        tb = traceback.extract_tb(e.__traceback__)
-        return ("exc", f"{type(e).__name__}@{tb[-1].name}", f"{type(e).__name__}: {e}"[:200])
-    return ("ok", out.getvalue())
+        if sink.startswith("file:"):
+            # a real file object in a private temporary directory (removed below)
+            tmpdir = tempfile.TemporaryDirectory(prefix="c11_")
+            path = os.path.join(tmpdir.name, "out")
+            mode = sink[5:]
+            if mode == "tmp":
+                out = tempfile.TemporaryFile(dir=tmpdir.name)
+            elif "b" in mode:
+                if mode == "r+b":
+                    open(path, "wb").close()
+                out = open(path, mode)
+            else:
+                out = open(path, mode, encoding="utf-8", newline="")
+        else:
+            out = io.StringIO() if sink == "str" else io.BytesIO()
+        c = codec
+        if textual and output == "xml":
+            c = ""  # XMLConverter requires "no codec" for a text sink
+        try:
+            hl.extract_text_to_fp(
+                io.BytesIO(pdf), out, output_type=output, codec=c,
+                laparams=None if la is None else lt.LAParams(**la), strip_control=strip,
+            )
+        except UnicodeEncodeError as e:
+            return ("unrepresentable", str(e)[:80])
+        except Exception as e:  # noqa
+            tb = traceback.extract_tb(e.__traceback__)
+            return ("exc", f"{type(e).__name__}@{tb[-1].name}", f"{type(e).__name__}: {e}"[:200])
+        if not sink.startswith("file:"):
+            return ("ok", out.getvalue())
+        if sink == "file:tmp":
+            out.seek(0)
+            data = out.read()
+            out.close()
+        else:
+            out.close()
+            with open(path, "rb") as f:
+                data = f.read()
+        return ("ok", data.decode("utf-8") if textual else data)
+    finally:
+        if tmpdir is not None:
+            try:
+                out.close()
+            except Exception:  # noqa
+                pass
+            tmpdir.cleanup()
 
 
 def representable(s: str, codec: str) -> bool:
@@ -493,6 +534,12 @@ class Ctx:
         self.strings = tree_strings(self.pages)
         self.has_forbidden = any(XML_FORBIDDEN.search(s) for _, s in self.strings)
         self._str = {}
+
+    def bytes_output(self, output, strip):
+        k = ("bytes", output, strip)
+        if k not in self._str:
+            self._str[k] = convert(self.pdf, self.la, output, "bytes", "utf-8", strip)
+        return self._str[k]
 
     def str_output(self, output, strip):
         k = (output, strip)
@@ -548,6 +595,16 @@ def judge(ctx: Ctx, output: str, sink: str, codec: str, strip: bool):
         if ref[0] == "ok" and representable(ref[1], codec):
             return ("judged", ("unrepresentable",), [(f"C11/{output}-encode-error-although-representable", "encodable", r[1], "UnicodeEncodeError although every character is representable")])
         return ("not-representable", None, [])
+    if sink.startswith("file:"):
+        # a real file must receive exactly what the in-memory sink of the same kind receives
+        ref = ctx.str_output(output, strip) if sink in FILE_SINKS_TEXT else ctx.bytes_output(output, strip)
+        if ref[0] != "ok":
+            return ("file-sink: in-memory sink raises", None, [])
+        if r[0] != "ok":
+            return ("judged", ("exc", r[1]), [(f"C11/file-sink-raises:{sink[5:]}:{r[1]}", "same output as the in-memory sink", r[2], f"real file opened with mode {sink[5:]!r} is not handled like BytesIO/StringIO")])
+        if r[1] != ref[1]:
+            return ("judged", h64(r[1]), [(f"C11/file-sink-differs:{sink[5:]}", ref[1][:200], r[1][:200], "real file receives other content than the in-memory sink")])
+        return ("judged", h64(r[1]), [])
     if r[0] == "exc":
         return ("judged", ("exc", r[1]), [(f"C11/exception:{r[1]}", "no exception", r[2], "converter raised")])
     val = r[1]
@@ -628,6 +685,11 @@ def grid(la, full: bool):
             if wide:
                 for codec in CODECS:
                     yield output, "bytes", codec, strip
+    if full and la == {}:
+        # real files (documents with <= 1 special slot, default LAParams): binary modes incl. update modes, text modes
+        for output, strip in (("text", False), ("xml", True)):
+            for sink in FILE_SINKS_BINARY + FILE_SINKS_TEXT:
+                yield output, sink, "utf-8", strip
 
 
 def _doc_rows(full: bool):
